@@ -45,6 +45,7 @@ class Execution:
         self.choices: List[int] = []
         self.trace: List[Tuple[int, str]] = []  # (tid, "file:line") for every step taken
         self.deadlock = False
+        self.livelock = False  # the step horizon was exceeded: threads keep running without ever finishing (spinning)
         self.errors: Dict[int, BaseException] = {}
         self.obs: Any = None  # filled by the harness
 
@@ -207,8 +208,9 @@ class Scheduler:
             self.ctl.acquire()
             steps += 1
             if steps > self.max_steps:
+                x.livelock = True
                 self._kill_all()
-                raise RuntimeError("step horizon exceeded (livelock?)")
+                return x
         if x.deadlock:
             self._kill_all()
         return x
